@@ -1,0 +1,22 @@
+//go:build verif
+
+package main
+
+// Contracts for the cache wiring of the gts commands (property C14).  Checked by /verif/gvc;
+// this file is only compiled with the verif build tag and contains no executable code.
+
+// ghostint("removed") is set to 1 by os.Remove.  An entry that the command did not commit
+// (d.done is false: the command returned an error after TryCache armed the cache writer) is
+// removed, whatever cache.File.Close reports; a committed entry is removed only when the
+// header could not be written.
+//@ func (d *ioDelegate) Close() (err error)
+//@   prop C14
+//@   requires !isnil(d) && ghostint("removed") == 0
+//@   requires !isnil(d.cache) ==> !isnil(d.cache.f) && !isnil(d.cache.h) && !isnil(d.cache.rd)
+//@   ensures uncommitted_entry_removed: !isnil(old(d.cache)) && !old(d.done) ==> ghostint("removed") == 1
+
+//@ func (d *ioDelegate) Commit()
+//@   prop C14
+//@   requires !isnil(d)
+//@   ensures committed: d.done
+//@   ensures frame: d.cache == old(d.cache) && d.infile == old(d.infile) && d.outfile == old(d.outfile) && d.tmpin == old(d.tmpin)
